@@ -202,6 +202,10 @@ func (fc *FuncCtx) parseModifies1(env *Env, ent0 string) []modLoc {
 			}
 			out = append(out, modLoc{comp: fc.elemComp(u.Elem()), kind: "elems", base: "(s-base " + v.T + ")", lo: "(+ (s-off " + v.T + ") " + lo + ")", hi: "(+ (s-off " + v.T + ") " + hi + ")"})
 		case EIdent:
+			if lv, ok := env.freeLV[x.Name]; ok {
+				out = append(out, modLoc{kind: "cell", cell: lv, field: -1})
+				continue
+			}
 			v := fc.eval(env, x)
 			if v.LV != nil && v.T == "" {
 				out = append(out, modLoc{kind: "cell", cell: v.LV, field: -1})
@@ -489,7 +493,22 @@ func (fc *FuncCtx) callFunction(x *ssa.Call, fn *ssa.Function, args []Val, bindi
 		}
 		for i, fv := range fn.FreeVars {
 			if i < len(bindings) {
-				env.vars[fv.Name()] = bindings[i]
+				b := bindings[i]
+				if b.LV != nil && b.T == "" {
+					// a captured variable: its name denotes the current value; the
+					// variable itself can be named in modifies
+					if env.freeLV == nil {
+						env.freeLV = map[string]*LValue{}
+					}
+					env.freeLV[fv.Name()] = b.LV
+					if fvv, ok := fc.fnCellOfLV(b.LV); ok {
+						env.vars[fv.Name()] = fvv
+					} else {
+						env.vars[fv.Name()] = Val{T: fc.loadLV(pre, b.LV), Ty: b.LV.Ty}
+					}
+				} else {
+					env.vars[fv.Name()] = b
+				}
 			}
 		}
 		for _, l := range ct.Lets {
@@ -1042,4 +1061,12 @@ func parseTypeText(src string) (te TypeExpr, err error) {
 	}()
 	te = p.typeExpr()
 	return te, nil
+}
+
+func (fc *FuncCtx) fnCellOfLV(lv *LValue) (Val, bool) {
+	if lv.Kind == lvCell && lv.Cell != nil && len(lv.Path) == 0 {
+		v, ok := fc.fnCells[lv.Cell]
+		return v, ok
+	}
+	return Val{}, false
 }
